@@ -10,6 +10,7 @@ import LithiumModel.SplitJs
 import LithiumModel.SplitAttrs
 import LithiumModel.Cmdline
 import Generated.CmdlineTable
+import LithiumModel.PairsMove
 import LithiumModel.Interest
 import LithiumModel.TempDir
 
@@ -178,7 +179,8 @@ def cmdStrategy (name cfg b p r a verdicts clock : String) : String :=
     match name.splitOn ":" with
     | ["minimize"] => encIt (Strat.minimize cfg o clk t)
     | ["minimize-around"] => encIt (Strat.around cfg o clk t)
-    | ["minimize-balanced"] => encIt (Strat.balanced cfg o clk t)
+    | ["minimize-balanced"] =>
+      if cfg.move then encIt (Strat.balancedMove cfg o clk t) else encIt (Strat.balanced cfg o clk t)
     | ["minimize-collapse-brace", kind] =>
       let reload : Bytes → Option Testcase := fun d =>
         match kind with
